@@ -183,7 +183,7 @@ var boolTemplates = []string{"(a < b) + c", "(a > b) * c", "a == b == c", "a < b
 	"max(a < b, 0.5)", "(a > b) * 5", "(a < b) + 1", "ceil((a >= b) * 0.3)", "!(a < b) + 1", "(!a) * 4", "a < b && c", "(a < b && c < d) * 7", "exp2(a < b)",
 	"abs(-(a < b))", "if((a < b) - 1, c, d)", "if(a < b, a < b, c) == 1", "(a < b) >= (c < d)", "log10((a < b) * 100)", "(a == b) + foo", "(a < b) == true"}
 
-var boolAtoms = []string{"0", "1", "2", "3", "0.5", "2.5", "7", "10", "$x", "$y", "$z", "$h", "$n", "1e-2", "100", "$a1e", "$r2e", "$rate"}
+var boolAtoms = []string{"0", "1", "2", "3", "0.5", "2.5", "7", "10", "$x", "$y", "$z", "$h", "$n", "1e-2", "100", "$a1e", "$r2e", "$rate", "1e+2", "2.5E-1", "$A1E"}
 
 func boolExpr(r *hx.Rng) string {
 	t := hx.Pick(r, boolTemplates)
